@@ -407,6 +407,11 @@ func runC04(w *World, r *Report) {
 	startConsumesCopy(w, r, "C04.start-consumes-callback-copy")
 
 	r.Rule("C04.no-compile-time-stream", "run-time handler literals created at compile time capture no stream object", 1)
+	noCompileTimeStream(w, r, "C04.no-compile-time-stream")
+}
+
+// noCompileTimeStream: shared by C04 and C15.static-values-per-run.
+func noCompileTimeStream(w *World, r *Report, rule string) {
 	ncl := 0
 	for _, top := range []*ssa.Function{w.Fn("compose", "graph.compile"), w.Fn("compose", "Workflow.compile"), w.Fn("compose", "graph.updateToValidateMap"), w.Fn("compose", "validateFieldMapping"), w.Fn("compose", "graph.addBranch")} {
 		instrs(top, func(in ssa.Instruction) {
@@ -421,12 +426,12 @@ func runC04(w *World, r *Report) {
 					t = p.Elem()
 				}
 				if isStreamType(t) || isStreamType(b.Type()) {
-					r.Fail("C04.no-compile-time-stream", fmt.Sprintf("%s captures stream %s", w.fname(mc.Fn.(*ssa.Function)), mc.Fn.(*ssa.Function).FreeVars[i].Name()), mc.Pos(), "a stream is single-use but the compiled handler is invoked on every run: the second stream-mode run finds it drained/closed while Invoke keeps working")
+					r.Fail(rule, fmt.Sprintf("%s captures stream %s", w.fname(mc.Fn.(*ssa.Function)), mc.Fn.(*ssa.Function).FreeVars[i].Name()), mc.Pos(), "a stream is single-use but the compiled handler is invoked on every run: the second stream-mode run finds it drained/closed while Invoke keeps working")
 				}
 			}
 		})
 	}
-	r.OK("C04.no-compile-time-stream", "handler literals created in compile functions", w.Fn("compose", "Workflow.compile").Pos(), fmt.Sprintf("%d literals inspected", ncl))
+	r.OK(rule, "handler literals created in compile functions", w.Fn("compose", "Workflow.compile").Pos(), fmt.Sprintf("%d literals inspected", ncl))
 }
 
 // valueOrPhiOf: v is arg or a phi one of whose edges is arg (parameters reassigned under `if enableCallback`).
